@@ -1,4 +1,12 @@
-"""C10 — n-step returns never cross an episode boundary and stay aligned with 1-step data."""
+"""C10 — n-step returns never cross an episode boundary and stay aligned with 1-step data.
+
+Two kinds of cases:
+  direct : a real MultiStepReplayBuffer paired with a real ReplayBuffer, driven with tagged raw
+           transitions exactly as train_off_policy does (add -> returned transition -> memory.add).
+  train  : the real train_off_policy loop with a scripted vectorised environment and a real
+           RainbowDQN whose learn() is replaced by a recorder: the buffers are filled and sampled by
+           the training loop itself.
+"""
 from __future__ import annotations
 
 import itertools
@@ -15,9 +23,11 @@ from agilerl.components.data import Transition
 from agilerl.components.replay_buffer import MultiStepReplayBuffer, ReplayBuffer
 
 BAD = 4999          # decoded tag of an internally inconsistent row
-ACT, NXT = 1000, 2000
 TOL = Fraction(1, 2 ** 13)       # absolute tolerance for gamma = 0.99 (float32 accumulation), evaluated in Q
 GAMMAS = {"0": 0.0, "1/2": 0.5, "1": 1.0, "0.99": 0.99}
+# tag bases of the action / next-observation fields: distinct in direct mode so that a value that ends up in
+# the wrong field cannot decode; in train mode next_obs(t) is obs(t+1) and the action is the agent's own
+BASES = {"direct": (1000, 2000), "train": (0, 0)}
 
 
 def tag(t, e, E):
@@ -28,10 +38,11 @@ def untag(x, E):
     return (x - 1) // E, (x - 1) % E
 
 
-# ------------------------------------------------------------------ tagged raw transitions
+# ------------------------------------------------------------------ tagged raw transitions (direct mode)
 def make_transition(t, step, E, style):
     """raw transition of stream position t exactly as train_off_policy builds it.
     step = [[reward, done] per env]"""
+    ACT, NXT = BASES["direct"]
     ids = np.array([tag(t, e, E) for e in range(E)], dtype=np.float32)
     obs = np.stack([ids, ids + 0.5], axis=1)
     nxt = np.stack([ids + NXT, ids + NXT + 0.5], axis=1)
@@ -78,8 +89,9 @@ def dec_scalar(x, base):
     return out
 
 
-def decode_rows(td):
+def decode_rows(td, kind):
     """TensorDict with leading dim m -> list of rows [ob, ac, reward(float, exact), nx, done] or None (never written)"""
+    ACT, NXT = BASES[kind]
     m = td.shape[0]
     ob = dec_obs(td["obs"], 0)
     nx = dec_obs(td["next_obs"], NXT)
@@ -104,10 +116,58 @@ def cq_cell(row):
     return f"(C {ob} {ac} {coq_Q(r)} {nx} {'true' if d == 1.0 else 'false'})"
 
 
+def cq_orow(r):
+    return "None" if r is None else f"Some {cq_cell(r)}"
+
+
 def cq_rows(rows):
     if rows is None:
         return "None"
-    return "(Some [" + "; ".join("None" if r is None else f"Some {cq_cell(r)}" for r in rows) + "])"
+    return "(Some [" + "; ".join(cq_orow(r) for r in rows) + "])"
+
+
+# ------------------------------------------------------------------ scripted environment (train mode)
+class ScriptEnv:
+    """Vectorised environment whose observations are tags of (step, env); rewards and done flags follow a script.
+    It also photographs the two buffers at every step boundary (before step j+1 the buffers hold the result of
+    the first j additions), which needs no hook in the training loop."""
+
+    def __init__(self, E, script, snap):
+        from gymnasium import spaces
+        self.num_envs = E
+        self.script = script
+        self.snap = snap
+        self.t = 0
+        self.resets = 0
+        self.actions = []
+        self.single_observation_space = spaces.Box(0, 5000, (2,), np.float32)
+        self.single_action_space = spaces.Discrete(3)
+        self.observation_space = self.single_observation_space
+        self.action_space = self.single_action_space
+
+    def _obs(self):
+        ids = np.array([tag(self.t, e, self.num_envs) for e in range(self.num_envs)], dtype=np.float32)
+        return np.stack([ids, ids + 0.5], axis=1)
+
+    def reset(self, **kw):
+        self.resets += 1
+        if self.resets == 2:
+            self.snap(self.t)
+        return self._obs(), {}
+
+    def step(self, action):
+        E = self.num_envs
+        if self.resets == 1 and self.t < len(self.script):
+            if self.t > 0:
+                self.snap(self.t)
+            rew = np.array([s[0] for s in self.script[self.t]], dtype=np.float64)
+            done = np.array([bool(s[1]) for s in self.script[self.t]])
+            self.actions.append([int(a) for a in np.asarray(action).reshape(-1)])
+            self.t += 1
+        else:                       # evaluation after training: end at once
+            rew = np.zeros(E)
+            done = np.ones(E, dtype=bool)
+        return self._obs(), rew, done, np.zeros(E, dtype=bool), {}
 
 
 # ------------------------------------------------------------------ the driver
@@ -117,17 +177,20 @@ class C10(vlib.Driver):
     preamble = ("From Coq Require Import QArith.\n"
                 "From AgileV Require Import Base.Prelude C09.Model C10.Model C10.Check.\nOpen Scope nat_scope.")
     rule = ("streams of raw (vectorised) transitions with tagged observation/action/next-observation, dyadic rewards and "
-            "done flags fed to a real MultiStepReplayBuffer paired with a real ReplayBuffer exactly as train_off_policy does; "
+            "done flags fed to a real MultiStepReplayBuffer paired with a real ReplayBuffer exactly as train_off_policy does "
+            "(direct), or produced by a scripted environment inside the real train_off_policy loop (train); "
             "one environment: every placement of done flags, exhaustively, up to the stated length; 1-3 environments: seeded. "
-            "Distinct = distinct (n, gamma, capacity, envs, reward/done stream). Non-trivial = at least one done flag inside a "
-            "stored window of length >= 2, or a wrap-around of the buffers.")
+            "Distinct = distinct (kind, n, gamma, capacity, envs, reward/done stream). Non-trivial = at least one done flag "
+            "inside a stored window of length >= 2, or a wrap-around of the buffers.")
     trusted_base = ["hand-written model coq/theories/C10/Model.v on top of the C09 ring-buffer model",
-                    "correspondence harness harness/c10.py (tag encoding/decoding of transitions, exact float->Q conversion)"]
-    assumptions = ["TensorDict clone / slice assignment semantics (validated by K only)",
+                    "correspondence harness harness/c10.py (tag encoding/decoding of transitions, exact float->Q conversion, "
+                    "scripted environment photographing the buffers at step boundaries)"]
+    assumptions = ["TensorDict clone / slice assignment / advanced indexing semantics (validated by K only)",
                    "float32 accumulation is exact for the dyadic streams (re-checked with Fractions by the oracle); "
                    "gamma = 0.99 is compared with absolute tolerance 2^-13 evaluated in Q",
                    "num_envs <= capacity and n >= 1 (guards of the theorems)",
-                   "one n-step deque shared across agents / env.reset() in the training loop is outside the property"]
+                   "one n-step deque shared across agents / generations and env.reset() in the training loop is outside the "
+                   "property (train cases use one agent and one generation)"]
     shard = 120
 
     # ---------- generation
@@ -144,13 +207,13 @@ class C10(vlib.Driver):
                 for gi, g in enumerate(["0", "1/2", "1", "0.99"]):
                     if tier == "quick" and g in ("0", "0.99") and L > 5:
                         continue
+                    if tier == "thorough" and g in ("0", "0.99") and L > 7:
+                        continue
                     for dones in itertools.product([0, 1], repeat=L):
                         cap = 2 + (sum(dones) + L + n + gi) % 3          # 2..4: both buffers wrap on most streams
                         stream = [[[float(1 + (t % 4)) if g != "0.99" else float(1 + (t % 4)) / 2, d]] for t, d in enumerate(dones)]
                         cases.append({"kind": "direct", "n": n, "gamma": g, "cap": cap, "E": 1,
                                       "style": "single" if (L + n) % 2 else "vector", "stream": stream, "every": 1})
-        if tier == "thorough":      # the full length-8 sweep of the design for n = 3, gamma = 1/2 is part of the above
-            pass
         # vectorised, seeded
         nseed = 150 if tier == "quick" else 1500
         for i in range(nseed):
@@ -163,10 +226,27 @@ class C10(vlib.Driver):
             stream = [[[rng.randint(-16, 16) / 4.0, 1 if rng.random() < p else 0] for _ in range(E)] for _ in range(L)]
             cases.append({"kind": "direct", "n": n, "gamma": g, "cap": cap, "E": E, "style": "vector",
                           "stream": stream, "every": 1 if L <= 12 else 3})
+        # the real training loop
+        ntrain = 16 if tier == "quick" else 120
+        for i in range(ntrain):
+            E = rng.choice([1, 2, 3])
+            n = rng.choice([1, 2, 3, 3, 4])
+            cap = rng.randint(max(3, E), 9)
+            L = rng.randint(n + 2, 12)
+            g = rng.choice(["1/2", "1/2", "1", "0.99"])
+            p = rng.choice([0.15, 0.3, 0.5])
+            stream = [[[rng.randint(-16, 16) / 4.0, 1 if rng.random() < p else 0] for _ in range(E)] for _ in range(L)]
+            # the four sampling sites of the loop: learn_step > num_envs or not, prioritised 1-step buffer or not
+            cases.append({"kind": "train", "n": n, "gamma": g, "cap": cap, "E": E, "style": "vector", "stream": stream,
+                          "batch": rng.randint(1, 3), "seed": rng.randint(0, 10 ** 6), "every": 1,
+                          "learn_step": 1 if i % 2 == 0 else E + 1, "per": (i // 2) % 2 == 1})
         return cases
 
     # ---------- implementation
     def run_impl(self, case):
+        return self.run_train(case) if case["kind"] == "train" else self.run_direct(case)
+
+    def run_direct(self, case):
         n, cap, E = case["n"], case["cap"], case["E"]
         nbuf = MultiStepReplayBuffer(max_size=cap, n_step=n, gamma=GAMMAS[case["gamma"]])
         mem = ReplayBuffer(max_size=cap)
@@ -180,33 +260,105 @@ class C10(vlib.Driver):
             if one is not None:
                 mem.add(one)
             # ---
-            rec = {"ret": decode_rows(one) if one is not None else None, "nlen": len(nbuf), "mlen": len(mem)}
+            rec = {"ret": [decode_rows(one, "direct")] if one is not None else [None],
+                   "nlen": len(nbuf), "mlen": len(mem), "smp": None}
             if t % every == 0 or t == L - 1:
-                rec["nrows"] = decode_rows(nbuf.storage) if nbuf.storage is not None else [None] * cap
-                rec["mrows"] = decode_rows(mem.storage) if mem.storage is not None else [None] * cap
+                rec["nrows"] = decode_rows(nbuf.storage, "direct") if nbuf.storage is not None else [None] * cap
+                rec["mrows"] = decode_rows(mem.storage, "direct") if mem.storage is not None else [None] * cap
             else:
                 rec["nrows"] = rec["mrows"] = None
             trace.append(rec)
         # sample_from_indices returns the stored rows at the given indices (same indices for both buffers)
-        smp = None
         if len(mem) >= 1 and len(nbuf) == len(mem):
             idx = torch.tensor(list(range(len(mem)))[::-1])
-            smp = {"idx": idx.tolist(), "n": decode_rows(nbuf.sample_from_indices(idx)), "m": decode_rows(mem.storage[idx])}
-        return {"trace": trace, "sample": smp}
+            trace[-1]["smp"] = {"idx": idx.tolist(), "n": decode_rows(nbuf.sample_from_indices(idx), "direct"),
+                                "m": decode_rows(mem.storage[idx], "direct")}
+        return {"trace": trace, "actions": None}
+
+    def run_train(self, case):
+        from agilerl.algorithms.dqn_rainbow import RainbowDQN
+        from agilerl.training.train_off_policy import train_off_policy
+        import contextlib, io
+        n, cap, E = case["n"], case["cap"], case["E"]
+        L = len(case["stream"])
+        torch.manual_seed(case["seed"])
+        np.random.seed(case["seed"] % (2 ** 31))
+        nbuf = MultiStepReplayBuffer(max_size=cap, n_step=n, gamma=GAMMAS[case["gamma"]])
+        per = bool(case.get("per", False))
+        if per:
+            from agilerl.components.replay_buffer import PrioritizedReplayBuffer
+            mem = PrioritizedReplayBuffer(max_size=cap, alpha=0.6)
+        else:
+            mem = ReplayBuffer(max_size=cap)
+        snaps, samples = {}, {}
+
+        def snap(t):           # buffers after the first t additions
+            snaps[t] = {"nlen": len(nbuf), "mlen": len(mem),
+                        "nrows": decode_rows(nbuf.storage, "train") if nbuf.storage is not None else [None] * cap,
+                        "mrows": decode_rows(mem.storage, "train") if mem.storage is not None else [None] * cap}
+
+        env = ScriptEnv(E, case["stream"], snap)
+        agent = RainbowDQN(env.single_observation_space, env.single_action_space,
+                           net_config={"encoder_config": {"hidden_size": [8]}},
+                           batch_size=case["batch"], learn_step=case.get("learn_step", 1), n_step=n, gamma=GAMMAS[case["gamma"]],
+                           num_atoms=5, v_min=-1.0, v_max=1.0)
+
+        def recorder(experiences, n_experiences=None, per=False):      # stands in for RainbowDQN.learn
+            idx = [int(i) for i in torch.as_tensor(experiences["idxs"]).reshape(-1)]
+            samples[env.t] = {"idx": idx,
+                              "m": decode_rows(experiences, "train"),
+                              "n": decode_rows(n_experiences, "train") if n_experiences is not None else None,
+                              "mshape": list(experiences.batch_size),
+                              "nshape": list(n_experiences.batch_size) if n_experiences is not None else None}
+            return 0.0, experiences["idxs"], np.ones(len(idx))
+        agent.learn = recorder
+        with contextlib.redirect_stdout(io.StringIO()), contextlib.redirect_stderr(io.StringIO()):
+            train_off_policy(env, "script", "RainbowDQN", [agent], mem, max_steps=L * E, evo_steps=L * E,
+                             eval_steps=1, eval_loop=1, n_step=True, per=per, n_step_memory=nbuf, verbose=False)
+        if env.t != L or sorted(snaps) != list(range(1, L + 1)):
+            raise RuntimeError(f"training loop made {env.t} environment steps (expected {L}); snapshots {sorted(snaps)}")
+        trace = []
+        for t in range(L):
+            rec = dict(snaps[t + 1])
+            rec["ret"] = None                       # return value of add is not observable from outside the loop
+            rec["smp"] = samples.get(t + 1)
+            trace.append(rec)
+        return {"trace": trace, "actions": env.actions}
+
+    # ---------- the stream as the model sees it
+    def cells(self, case, obs):
+        """[(ob, ac, reward, nx, done)] per step per env, as tags"""
+        E = case["E"]
+        out = []
+        for t, step in enumerate(case["stream"]):
+            row = []
+            for e, s in enumerate(step):
+                if case["kind"] == "train":
+                    row.append((tag(t, e, E), obs["actions"][t][e], float(s[0]), tag(t + 1, e, E), bool(s[1])))
+                else:
+                    row.append((tag(t, e, E), tag(t, e, E), float(s[0]), tag(t, e, E), bool(s[1])))
+            out.append(row)
+        return out
 
     # ---------- model term
     def coq_term(self, case, obs):
-        E = case["E"]
-        xs = []
-        for t, step in enumerate(case["stream"]):
-            cells = [f"(C {tag(t, e, E)} {tag(t, e, E)} {coq_Q(float(s[0]))} {tag(t, e, E)} {'true' if s[1] else 'false'})"
-                     for e, s in enumerate(step)]
-            xs.append("[" + "; ".join(cells) + "]")
+        xs = ["[" + "; ".join(f"(C {ob} {ac} {coq_Q(r)} {nx} {'true' if d else 'false'})" for ob, ac, r, nx, d in row) + "]"
+              for row in self.cells(case, obs)]
         ol = []
         for rec in obs["trace"]:
-            ret = "None" if rec["ret"] is None else \
-                "(Some [" + "; ".join(cq_cell(r) if r is not None else f"(C {BAD} 0 0 0 false)" for r in rec["ret"]) + "])"
-            ol.append(f"(O {ret} {rec['nlen']} {rec['mlen']} {cq_rows(rec['nrows'])} {cq_rows(rec['mrows'])})")
+            if rec["ret"] is None:
+                ret = "None"
+            elif rec["ret"][0] is None:
+                ret = "(Some None)"
+            else:
+                ret = "(Some (Some [" + "; ".join(cq_cell(r) if r is not None else f"(C {BAD} 0 0 0 false)" for r in rec["ret"][0]) + "]))"
+            s = rec.get("smp")
+            if s is None or s["n"] is None:
+                smp = "None"
+            else:
+                smp = ("(Some ([" + "; ".join(map(str, s["idx"])) + "], [" + "; ".join(cq_orow(r) for r in s["n"]) + "], ["
+                       + "; ".join(cq_orow(r) for r in s["m"]) + "]))")
+            ol.append(f"(O {ret} {rec['nlen']} {rec['mlen']} {cq_rows(rec['nrows'])} {cq_rows(rec['mrows'])} {smp})")
         tol = coq_Q(TOL) if case["gamma"] == "0.99" else "0%Q"
         return (f"check_run {case['n']} {case['cap']} {coq_Q(GAMMAS[case['gamma']])} {tol} "
                 f"[{'; '.join(xs)}] [{'; '.join(ol)}]")
@@ -214,12 +366,15 @@ class C10(vlib.Driver):
     # ---------- oracle: the property stated directly on the implementation's behaviour
     def oracle(self, case, obs):
         n, cap, E = case["n"], case["cap"], case["E"]
-        stream = case["stream"]
+        kind = case["kind"]
+        cells = self.cells(case, obs)
         g = Fraction(GAMMAS[case["gamma"]])
         exact = case["gamma"] != "0.99"
-        site = f"n={'1' if n == 1 else '>1'}:envs={'1' if E == 1 else '>1'}"
-        done = lambda t, e: bool(stream[t][e][1])
-        rew = lambda t, e: Fraction(float(stream[t][e][0]))
+        site = f"{kind}:n={'1' if n == 1 else '>1'}:envs={'1' if E == 1 else '>1'}"
+        done = lambda t, e: cells[t][e][4]
+        rew = lambda t, e: Fraction(cells[t][e][2])
+        raw = lambda t, e: [cells[t][e][0], cells[t][e][1], cells[t][e][2], cells[t][e][3], 1.0 if cells[t][e][4] else 0.0]
+        nx_last = {cells[t][e][3]: (t, e) for t in range(len(cells)) for e in range(E)}     # next-obs tag -> (step, env)
 
         def close(a, b):
             return a == b if exact else abs(a - b) <= TOL
@@ -230,11 +385,11 @@ class C10(vlib.Driver):
             if ob in (0, BAD) or ob > now * E:
                 return Violation("start", f"nstep:start:{site}", f"{where}: observation tag {ob} is not an observed one")
             k, e = untag(ob, E)
-            if ac != ob:
-                return Violation("start", f"nstep:start:{site}", f"{where}: obs of (step {k}, env {e}) stored with action tag {ac}")
-            if nx in (0, BAD) or nx > now * E or untag(nx, E)[1] != e:
-                return Violation("next", f"nstep:next-obs:{site}", f"{where}: window {k} env {e}: next_obs tag {nx} is not a next observation of env {e}")
-            last = untag(nx, E)[0]
+            if ac != cells[k][e][1]:
+                return Violation("start", f"nstep:start:{site}", f"{where}: obs of (step {k}, env {e}) stored with action {ac}, taken was {cells[k][e][1]}")
+            if nx not in nx_last or nx_last[nx][1] != e or nx_last[nx][0] >= now:
+                return Violation("next", f"nstep:next-obs:{site}", f"{where}: window {k} env {e}: next_obs tag {nx} is not a next observation of env {e} seen so far")
+            last = nx_last[nx][0]
             m = last - k + 1
             if not (1 <= m <= n):
                 return Violation("next", f"nstep:next-obs:{site}", f"{where}: window {k} env {e}: next_obs taken from step {last} (n={n})")
@@ -248,60 +403,75 @@ class C10(vlib.Driver):
                                  f"{where}: window {k} env {e} stops after {m} < n={n} steps although no environment ended at step {last}")
             want = sum((g ** i) * rew(k + i, e) for i in range(m))
             if not close(Fraction(r), want):
-                # which weights would explain it? (only to make the signature specific)
                 return Violation("reward", f"nstep:reward:{site}",
                                  f"{where}: window {k} env {e}: n-step reward {r} but sum_(i<{m}) gamma^i r = {float(want)} "
                                  f"(rewards {[float(rew(k + i, e)) for i in range(m)]}, gamma={case['gamma']})")
-            if bool(d) != done(last, e) or d not in (0.0, 1.0):
+            if d not in (0.0, 1.0) or bool(d) != done(last, e):
                 return Violation("done", f"nstep:done:{site}", f"{where}: window {k} env {e}: done={d} but step {last} has done={done(last, e)}")
+            return None
+
+        def check_pair(row, mr, where):
+            if mr is None or mr[0] != row[0] or mr[1] != row[1]:
+                return Violation("aligned", f"nstep:aligned:{site}",
+                                 f"{where}: the n-step record describes (obs {row[0]}, action {row[1]}) but the 1-step record is {mr}")
+            if mr[0] in (0, BAD) or mr[0] > len(cells) * E:
+                return Violation("aligned", f"nstep:one-step-data:{site}", f"{where}: 1-step record {mr} is not an observed transition")
+            k, e = untag(mr[0], E)
+            if mr != raw(k, e):
+                return Violation("aligned", f"nstep:one-step-data:{site}", f"{where}: 1-step record {mr} is not raw transition {k} of env {e} = {raw(k, e)}")
             return None
 
         for t, rec in enumerate(obs["trace"]):
             now = t + 1
             cnt = max(0, now + 1 - n)                      # windows completed so far
             # returned 1-step transition
-            if (rec["ret"] is None) != (now < n):
-                return [Violation("returned", f"nstep:returned:{site}", f"step {t}: add returned {'None' if rec['ret'] is None else 'a transition'} with {now} transitions seen, n={n}")]
             if rec["ret"] is not None:
-                k = now - n
-                want = [[tag(k, e, E), tag(k, e, E), float(stream[k][e][0]), tag(k, e, E), 1.0 if done(k, e) else 0.0] for e in range(E)]
-                if rec["ret"] != want:
-                    return [Violation("returned", f"nstep:returned:{site}", f"step {t}: add returned {rec['ret']}, the raw transition {k} is {want}")]
+                ret = rec["ret"][0]
+                if (ret is None) != (now < n):
+                    return [Violation("returned", f"nstep:returned:{site}", f"step {t}: add returned {'None' if ret is None else 'a transition'} with {now} transitions seen, n={n}")]
+                if ret is not None:
+                    k = now - n
+                    want = [raw(k, e) for e in range(E)]
+                    if ret != want:
+                        return [Violation("returned", f"nstep:returned:{site}", f"step {t}: add returned {ret}, the raw transition {k} is {want}")]
             want_len = min(cap, cnt * E)
             if rec["nlen"] != want_len or rec["mlen"] != want_len:
                 return [Violation("len", f"nstep:len:{site}", f"step {t}: len(n_step_memory)={rec['nlen']} len(memory)={rec['mlen']} expected {want_len}")]
-            if rec["nrows"] is None:
-                continue
-            nrows, mrows = rec["nrows"], rec["mrows"]
-            live_n = [r for r in nrows if r is not None]
-            if len(live_n) != want_len or len([r for r in mrows if r is not None]) != want_len:
-                return [Violation("contents", f"nstep:contents:{site}", f"step {t}: {len(live_n)} written n-step rows, expected {want_len}")]
-            for i, row in enumerate(nrows):
-                if row is None:
-                    continue
-                v = check_row(row, f"step {t}, n_step_memory.storage[{i}]", now)
-                if v:
-                    return [v]
-                # aligned with the 1-step buffer
-                mr = mrows[i]
-                if mr is None or mr[0] != row[0] or mr[1] != row[1]:
-                    return [Violation("aligned", f"nstep:aligned:{site}",
-                                      f"step {t}: storage[{i}] of the n-step buffer describes (obs {row[0]}, action {row[1]}) but the 1-step buffer holds {mr}")]
-                k, e = untag(mr[0], E)
-                if mr != [tag(k, e, E), tag(k, e, E), float(stream[k][e][0]), tag(k, e, E), 1.0 if done(k, e) else 0.0]:
-                    return [Violation("aligned", f"nstep:one-step-data:{site}", f"step {t}: memory.storage[{i}] = {mr} is not raw transition {k} of env {e}")]
-            # the stored windows are the most recent ones
-            have = sorted(r[0] for r in live_n)
-            if have != list(range(cnt * E - want_len + 1, cnt * E + 1)):
-                return [Violation("contents", f"nstep:contents:{site}", f"step {t}: stored windows {have}, expected the last {want_len} of {cnt * E}")]
-        s = obs.get("sample")
-        if s is not None:
-            last = obs["trace"][-1]
-            if last["nrows"] is not None:
-                for j, i in enumerate(s["idx"]):
-                    if s["n"][j] != last["nrows"][i] or s["m"][j] != last["mrows"][i]:
+            if rec["nrows"] is not None:
+                nrows, mrows = rec["nrows"], rec["mrows"]
+                live_n = [r for r in nrows if r is not None]
+                if len(live_n) != want_len or len([r for r in mrows if r is not None]) != want_len:
+                    return [Violation("contents", f"nstep:contents:{site}", f"step {t}: {len(live_n)} written n-step rows, {len([r for r in mrows if r is not None])} written 1-step rows, expected {want_len}")]
+                for i, row in enumerate(nrows):
+                    if row is None:
+                        continue
+                    v = check_row(row, f"step {t}, n_step_memory.storage[{i}]", now) or \
+                        check_pair(row, mrows[i], f"step {t}, storage[{i}]")
+                    if v:
+                        return [v]
+                # the stored windows are the most recent ones
+                have = sorted(r[0] for r in live_n)
+                if have != list(range(cnt * E - want_len + 1, cnt * E + 1)):
+                    return [Violation("contents", f"nstep:contents:{site}", f"step {t}: stored windows {have}, expected the last {want_len} of {cnt * E}")]
+            s = rec.get("smp")
+            if s is not None:
+                # what the learner receives: row j of the n-step batch and row j of the 1-step batch
+                if s.get("nshape") != s.get("mshape"):
+                    return [Violation("batch-shape", f"nstep:learner-batch-shape:{'per' if case.get('per') else 'uniform'}",
+                                      f"step {t}: the learner receives a 1-step batch of shape {s.get('mshape')} and an n-step batch of shape "
+                                      f"{s.get('nshape')} for the indices {s['idx']}: row j of one is not row j of the other")]
+                if s["n"] is None or len(s["n"]) != len(s["m"]):
+                    return [Violation("sample", f"nstep:sample-from-indices:{site}", f"step {t}: n-step batch {s['n']} for 1-step batch of {len(s['m'])} rows")]
+                for j, (nr, mr) in enumerate(zip(s["n"], s["m"])):
+                    if nr is None:
+                        return [Violation("sample", f"nstep:sample-from-indices:{site}", f"step {t}: sampled index {s['idx'][j]} is an unwritten n-step row")]
+                    v = check_row(nr, f"step {t}, n-step batch row {j} (index {s['idx'][j]})", now) or \
+                        check_pair(nr, mr, f"step {t}, batch row {j} (index {s['idx'][j]})")
+                    if v:
+                        return [v]
+                    if rec["nrows"] is not None and (nr != rec["nrows"][s["idx"][j]] or mr != rec["mrows"][s["idx"][j]]):
                         return [Violation("sample", f"nstep:sample-from-indices:{site}",
-                                          f"sample_from_indices({s['idx']})[{j}] = {s['n'][j]} but storage[{i}] = {last['nrows'][i]}")]
+                                          f"step {t}: batch row {j} = {nr} / {mr} but storage[{s['idx'][j]}] = {rec['nrows'][s['idx'][j]]} / {rec['mrows'][s['idx'][j]]}")]
         return []
 
     # ---------- evidence bookkeeping
@@ -329,20 +499,29 @@ class C10(vlib.Driver):
             f.add("wrap-around")
         return f
 
+    def key(self, case):
+        k = {x: case.get(x) for x in ("kind", "n", "gamma", "cap", "E", "stream", "learn_step", "per")}
+        return super().key(k)
+
     def nontrivial(self, case, obs):
         f = self._features(case)
         return bool(f & {"window:done-first", "window:done-middle", "window:done-last", "wrap-around"})
 
     def classify(self, case, obs):
-        labs = [f"n={case['n']}", f"gamma={case['gamma']}", f"envs={case['E']}", f"cap={case['cap']}",
+        labs = [f"kind={case['kind']}", f"n={case['n']}", f"gamma={case['gamma']}", f"envs={case['E']}", f"cap={case['cap']}",
                 f"style={case['style']}", f"len={len(case['stream']) if len(case['stream']) <= 8 else '>8'}"]
+        if case["kind"] == "train":
+            labs.append(f"train-site:{'learn_step>envs' if case.get('learn_step', 1) > case['E'] else 'learn_step<=envs'}:{'per' if case.get('per') else 'uniform'}")
+        nb = sum(1 for rec in obs["trace"] if rec.get("smp"))
+        if nb:
+            labs.append("learner-batches-with-shared-indices" if case["kind"] == "train" else "sample_from_indices")
         return labs + sorted(self._features(case))
 
     def neighbours(self, case, rng):
         # same stream with one step dropped / one done flag flipped
         st = case["stream"]
         for i in range(len(st)):
-            if len(st) - 1 >= case["n"]:
+            if len(st) - 1 >= case["n"] + (2 if case["kind"] == "train" else 0):
                 c = dict(case); c["stream"] = st[:i] + st[i + 1:]
                 yield c
         for i in range(len(st)):
